@@ -410,9 +410,10 @@ QUICK_STRATA = [
     # a crop without aeration stress rooting below a very shallow water table
     dict(crop="PaddyRice", station="hyderabad_climate.txt", irr_method=0, gw=True, gw_shallow=True, soil="Paddy", soil_kind="builtin",
          dz=[0.1] * 12, n_seasons=1, start_mode="at"),
-    # net irrigation on a ponded field
-    dict(crop="PaddyRice", station="hyderabad_climate.txt", irr_method=4, fm="bunds", soil="Paddy", soil_kind="builtin",
-         n_seasons=1, start_mode="at"),
+    # net irrigation on a ponded field; two seasons with the off-season skipped and more initial bund water than the
+    # bunds hold (the season reset re-creates the pond)
+    dict(crop="PaddyRice", station="hyderabad_climate.txt", irr_method=4, fm="bunds", fm_over={"bund_water": 300.0, "z_bund": 0.1},
+         soil="Paddy", soil_kind="builtin", n_seasons=2, start_mode="at", off_season=False),
     # net irrigation, thin sand over clay, deep roots, dry start
     dict(crop="Cotton", station="tunis_climate.txt", irr_method=4, soil_kind="custom", layers=CUSTOM_LAYERS[4], n_seasons=2,
          start_mode="at", off_season=False, iwc={"wc_type": "Pct", "method": "Layer", "depth_layer": [1, 2], "value": [30.0, 30.0]}),
